@@ -192,8 +192,23 @@ pub fn drive(log: &mut Log) {
     let maxl = if log.opts.thorough() { 4 } else { 3 };
     let strs = all_strings(ac, maxl);
     let schemes: Vec<(i32, i32, i32)> = vec![(1, -1, -1), (1, -1, 0), (2, -3, -2), (0, -1, -4), (1, 1, -1), (3, -2, -1)];
+    // two schemes whose match score is close to the top of the score type (an alignment of two or three
+    // matches scores 1.8e9 .. 2e9, just below 2^31): only for strings short enough for that
+    let schemes: Vec<(i32, i32, i32)> = {
+        let mut v = schemes;
+        v.push((1_000_000_000, -1, -1));
+        v.push((600_000_000, -2, -1));
+        v
+    };
     for r in &strs {
         for &(m, mm, g) in &schemes {
+            let cap = if m >= 1_000_000_000 { 2 } else if m >= 600_000_000 { 3 } else { usize::MAX };
+            if r.len() > cap {
+                continue;
+            }
+            if cap != usize::MAX {
+                log.oblige("match_score_near_the_top_of_i32");
+            }
             case += 1;
             if !log.mine(case) {
                 continue;
@@ -201,6 +216,9 @@ pub fn drive(log: &mut Log) {
             let sc = Sc { table: mm_table(2, m, mm), gap: g, gap_extend: -7, clips: if (case % 3) == 0 { log.oblige("scoring_with_clip_penalties"); Some([-1, -1, -1, -1]) } else { None } };
             let mut ops = vec![];
             for (qi, q) in strs.iter().enumerate() {
+                if q.len() > cap {
+                    continue;
+                }
                 if case % 2 == 0 {
                     // the same query in a clipping mode right before the judged global alignment
                     ops.push(Op::OtherMode((qi + case as usize) % 3, q.clone()));
